@@ -2,16 +2,205 @@
   C02 — Monte Carlo results are the moments of the formula under the stated normal model.
 
   Model: `MC.simulate` (QExPy/Model/MonteCarlo.lean): the pipeline GIVEN the offsets.
+  Randomness is outside the theorems: they say what the library computes from the draws.
 -/
-import QExPy.Real
-import QExPy.Model.MonteCarlo
+import QExPy.Lemmas.Cholesky
 
 namespace QExPy
 open MC
+
+/-! ## sample size -/
 
 /-- **C02 (sample size).** N is the per-quantity size when one is set, else the global size. -/
 theorem C02_sample_size (per glob : Nat) :
     (per ≠ 0 → sampleSize per glob = per) ∧ (per = 0 → sampleSize per glob = glob) := by
   constructor <;> intro h <;> simp [sampleSize, h]
+
+/-! ## Cholesky factor of the correlation matrix -/
+
+/-- **C02 (Cholesky, n = 2).** For a positive-definite symmetric 2×2 matrix the explicit
+    factorisation succeeds, its diagonal is positive, and L·Lᵀ = R (L lower triangular:
+    `chol` writes the zero above the diagonal, see `C02_chol_matrix`). -/
+theorem C02_chol2_correct (r11 r21 r22 : ℝ) (h : PosDef2 r11 r21 r22) :
+    ∃ l11 l21 l22, chol2 r11 r21 r22 = some (l11, l21, l22) ∧ 0 < l11 ∧ 0 < l22 ∧
+      l11 * l11 = r11 ∧ l21 * l11 = r21 ∧ l21 * l21 + l22 * l22 = r22 := by
+  have p1 : 0 < r11 := by
+    have := h 1 0 (Or.inl one_ne_zero); simpa [qf2] using this
+  obtain ⟨s1, hs1, h11⟩ : ∃ s1 : ℝ, 0 < s1 ∧ r11 = s1 * s1 :=
+    ⟨Real.sqrt r11, Real.sqrt_pos.mpr p1, (Real.mul_self_sqrt p1.le).symm⟩
+  subst h11
+  obtain ⟨l21, h21⟩ : ∃ l21 : ℝ, r21 = l21 * s1 := ⟨r21 / s1, by field_simp⟩
+  subst h21
+  obtain ⟨d2, h22⟩ : ∃ d2 : ℝ, r22 = l21 * l21 + d2 := ⟨r22 - l21 * l21, by ring⟩
+  subst h22
+  have p2 : 0 < d2 := by
+    have := h (-l21 / s1) 1 (Or.inr one_ne_zero)
+    rw [qf2_decomp] at this
+    have e : s1 * (-l21 / s1) + l21 * 1 = 0 := by field_simp; ring
+    rw [e] at this; simpa using this
+  obtain ⟨s2, hs2, hd2⟩ : ∃ s2 : ℝ, 0 < s2 ∧ d2 = s2 * s2 :=
+    ⟨Real.sqrt d2, Real.sqrt_pos.mpr p2, (Real.mul_self_sqrt p2.le).symm⟩
+  subst hd2
+  exact ⟨s1, l21, s2, chol2_of_factor s1 l21 s2 hs1 hs2, hs1, hs2, rfl, rfl, rfl⟩
+
+/-- whenever the factorisation succeeds the matrix was positive definite -/
+theorem chol2_some_posdef (r11 r21 r22 : ℝ) (L : ℝ × ℝ × ℝ) (h : chol2 r11 r21 r22 = some L) :
+    PosDef2 r11 r21 r22 := by
+  simp only [chol2, pivotOk_real, num_sqrt, num_div, num_sub, num_mul] at h
+  by_cases p1 : 0 < r11
+  · simp only [p1, decide_true, if_true] at h
+    by_cases p2 : 0 < r22 - r21 / Real.sqrt r11 * (r21 / Real.sqrt r11)
+    · have hs1 : 0 < Real.sqrt r11 := Real.sqrt_pos.mpr p1
+      have h11 : r11 = Real.sqrt r11 * Real.sqrt r11 := (Real.mul_self_sqrt p1.le).symm
+      have h21 : r21 = r21 / Real.sqrt r11 * Real.sqrt r11 := by field_simp
+      have h22 : r22 = r21 / Real.sqrt r11 * (r21 / Real.sqrt r11)
+          + (r22 - r21 / Real.sqrt r11 * (r21 / Real.sqrt r11)) := by ring
+      intro x y hxy
+      rw [h11, h21, h22, qf2_decomp]
+      generalize r22 - r21 / Real.sqrt r11 * (r21 / Real.sqrt r11) = d2 at p2 ⊢
+      generalize r21 / Real.sqrt r11 = l21
+      generalize Real.sqrt r11 = s1 at hs1 ⊢
+      by_cases hy : y = 0
+      · subst hy
+        have hx : x ≠ 0 := by
+          rcases hxy with hx | hy
+          · exact hx
+          · exact absurd rfl hy
+        have : 0 < (s1 * x) ^ 2 := by positivity
+        simpa using this
+      · have : 0 < d2 * y ^ 2 := by positivity
+        have : 0 ≤ (s1 * x + l21 * y) ^ 2 := sq_nonneg _
+        linarith
+    · simp [p2] at h
+  · simp [p1] at h
+
+/-- **C02 (Cholesky, n = 2, not positive definite).** `none` — the documented fallback
+    (identity factor + warning) applies. -/
+theorem C02_chol2_none (r11 r21 r22 : ℝ) (h : ¬ PosDef2 r11 r21 r22) : chol2 r11 r21 r22 = none := by
+  cases hc : chol2 r11 r21 r22 with
+  | none => rfl
+  | some L => exact absurd (chol2_some_posdef r11 r21 r22 L hc) h
+
+/-- **C02 (Cholesky, n = 3).** For a positive-definite symmetric 3×3 matrix the explicit
+    factorisation succeeds with a positive diagonal and L·Lᵀ = R (all six entries of the lower
+    triangle; the upper triangle of L is zero by construction, see `C02_chol_matrix`). -/
+theorem C02_chol3_correct (r11 r21 r22 r31 r32 r33 : ℝ) (h : PosDef3 r11 r21 r22 r31 r32 r33) :
+    ∃ l11 l21 l22 l31 l32 l33,
+      chol3 r11 r21 r22 r31 r32 r33 = some (l11, l21, l22, l31, l32, l33) ∧
+      0 < l11 ∧ 0 < l22 ∧ 0 < l33 ∧
+      l11 * l11 = r11 ∧ l21 * l11 = r21 ∧ l21 * l21 + l22 * l22 = r22 ∧
+      l31 * l11 = r31 ∧ l31 * l21 + l32 * l22 = r32 ∧ l31 * l31 + l32 * l32 + l33 * l33 = r33 := by
+  have p1 : 0 < r11 := by
+    have := h 1 0 0 (Or.inl one_ne_zero); simpa [qf3] using this
+  obtain ⟨s1, hs1, h11⟩ : ∃ s1 : ℝ, 0 < s1 ∧ r11 = s1 * s1 :=
+    ⟨Real.sqrt r11, Real.sqrt_pos.mpr p1, (Real.mul_self_sqrt p1.le).symm⟩
+  subst h11
+  obtain ⟨l21, h21⟩ : ∃ l21 : ℝ, r21 = l21 * s1 := ⟨r21 / s1, by field_simp⟩
+  subst h21
+  obtain ⟨l31, h31⟩ : ∃ l31 : ℝ, r31 = l31 * s1 := ⟨r31 / s1, by field_simp⟩
+  subst h31
+  obtain ⟨d2, h22⟩ : ∃ d2 : ℝ, r22 = l21 * l21 + d2 := ⟨r22 - l21 * l21, by ring⟩
+  subst h22
+  have p2 : 0 < d2 := by
+    have := h (-l21 / s1) 1 0 (Or.inr (Or.inl one_ne_zero))
+    rw [qf3_decomp2] at this
+    have e : s1 * (-l21 / s1) + l21 * 1 = 0 := by field_simp; ring
+    rw [e] at this; simpa using this
+  obtain ⟨s2, hs2, hd2⟩ : ∃ s2 : ℝ, 0 < s2 ∧ d2 = s2 * s2 :=
+    ⟨Real.sqrt d2, Real.sqrt_pos.mpr p2, (Real.mul_self_sqrt p2.le).symm⟩
+  subst hd2
+  obtain ⟨l32, h32⟩ : ∃ l32 : ℝ, r32 = l31 * l21 + l32 * s2 :=
+    ⟨(r32 - l31 * l21) / s2, by field_simp; ring⟩
+  subst h32
+  obtain ⟨d3, h33⟩ : ∃ d3 : ℝ, r33 = l31 * l31 + l32 * l32 + d3 :=
+    ⟨r33 - l31 * l31 - l32 * l32, by ring⟩
+  subst h33
+  have p3 : 0 < d3 := by
+    have := h (-(l21 * (-l32 / s2) + l31) / s1) (-l32 / s2) 1 (Or.inr (Or.inr one_ne_zero))
+    rw [qf3_decomp] at this
+    have e1 : s2 * (-l32 / s2) + l32 * 1 = 0 := by field_simp; ring
+    have e2 : s1 * (-(l21 * (-l32 / s2) + l31) / s1) + l21 * (-l32 / s2) + l31 * 1 = 0 := by
+      field_simp; ring
+    rw [e1, e2] at this; simpa using this
+  obtain ⟨s3, hs3, hd3⟩ : ∃ s3 : ℝ, 0 < s3 ∧ d3 = s3 * s3 :=
+    ⟨Real.sqrt d3, Real.sqrt_pos.mpr p3, (Real.mul_self_sqrt p3.le).symm⟩
+  subst hd3
+  exact ⟨s1, l21, s2, l31, l32, s3, chol3_of_factor s1 l21 s2 l31 l32 s3 hs1 hs2 hs3, hs1, hs2, hs3,
+    rfl, rfl, rfl, rfl, rfl, rfl⟩
+
+/-- whenever the 3×3 factorisation succeeds the matrix was positive definite -/
+theorem chol3_some_posdef (r11 r21 r22 r31 r32 r33 : ℝ) (L : ℝ × ℝ × ℝ × ℝ × ℝ × ℝ)
+    (h : chol3 r11 r21 r22 r31 r32 r33 = some L) : PosDef3 r11 r21 r22 r31 r32 r33 := by
+  simp only [chol3, pivotOk_real, num_sqrt, num_div, num_sub, num_mul] at h
+  by_cases p1 : 0 < r11
+  · simp only [p1, decide_true, if_true] at h
+    have hs1 : 0 < Real.sqrt r11 := Real.sqrt_pos.mpr p1
+    have h11 : r11 = Real.sqrt r11 * Real.sqrt r11 := (Real.mul_self_sqrt p1.le).symm
+    have h21 : r21 = r21 / Real.sqrt r11 * Real.sqrt r11 := by field_simp
+    have h31 : r31 = r31 / Real.sqrt r11 * Real.sqrt r11 := by field_simp
+    generalize Real.sqrt r11 = s1 at *
+    generalize r21 / s1 = l21 at *
+    generalize r31 / s1 = l31 at *
+    by_cases p2 : 0 < r22 - l21 * l21
+    · simp only [p2, decide_true, if_true] at h
+      have hs2 : 0 < Real.sqrt (r22 - l21 * l21) := Real.sqrt_pos.mpr p2
+      have h22 : r22 = l21 * l21 + Real.sqrt (r22 - l21 * l21) * Real.sqrt (r22 - l21 * l21) := by
+        rw [Real.mul_self_sqrt p2.le]; ring
+      have h32 : r32 = l31 * l21 + (r32 - l31 * l21) / Real.sqrt (r22 - l21 * l21)
+          * Real.sqrt (r22 - l21 * l21) := by rw [div_mul_cancel₀ _ hs2.ne']; ring
+      generalize Real.sqrt (r22 - l21 * l21) = s2 at *
+      generalize (r32 - l31 * l21) / s2 = l32 at *
+      by_cases p3 : 0 < r33 - l31 * l31 - l32 * l32
+      · have h33 : r33 = l31 * l31 + l32 * l32 + (r33 - l31 * l31 - l32 * l32) := by ring
+        generalize r33 - l31 * l31 - l32 * l32 = d3 at *
+        intro x y z hxyz
+        rw [h11, h21, h22, h31, h32, h33, qf3_decomp]
+        have n1 : 0 ≤ (s1 * x + l21 * y + l31 * z) ^ 2 := sq_nonneg _
+        have n2 : 0 ≤ (s2 * y + l32 * z) ^ 2 := sq_nonneg _
+        have n3 : 0 ≤ d3 * z ^ 2 := by positivity
+        by_cases hz : z = 0
+        · subst hz
+          by_cases hy : y = 0
+          · subst hy
+            have hx : x ≠ 0 := by
+              rcases hxyz with hx | hy | hz
+              · exact hx
+              · exact absurd rfl hy
+              · exact absurd rfl hz
+            have : 0 < (s1 * x) ^ 2 := by positivity
+            simpa using this
+          · have : 0 < (s2 * y) ^ 2 := by positivity
+            have e : (s2 * y + l32 * 0) ^ 2 = (s2 * y) ^ 2 := by ring
+            rw [e]; linarith
+        · have : 0 < d3 * z ^ 2 := by positivity
+          linarith
+      · simp [p3] at h
+    · simp [p2] at h
+  · simp [p1] at h
+
+/-- **C02 (Cholesky, n = 3, not positive definite).** e.g. ρ = 0.9, 0.9, −0.9: `none`, so the
+    documented fallback (identity factor + warning) applies. -/
+theorem C02_chol3_none (r11 r21 r22 r31 r32 r33 : ℝ) (h : ¬ PosDef3 r11 r21 r22 r31 r32 r33) :
+    chol3 r11 r21 r22 r31 r32 r33 = none := by
+  cases hc : chol3 r11 r21 r22 r31 r32 r33 with
+  | none => rfl
+  | some L => exact absurd (chol3_some_posdef _ _ _ _ _ _ L hc) h
+
+/-- non-vacuity: the identity is positive definite; ρ = (0.9, 0.9, −0.9) is not -/
+example : PosDef3 1 0 1 0 0 1 := by
+  intro x y z h
+  simp only [qf3]
+  rcases h with h | h | h
+  · have : 0 < x ^ 2 := by positivity
+    nlinarith [sq_nonneg y, sq_nonneg z]
+  · have : 0 < y ^ 2 := by positivity
+    nlinarith [sq_nonneg x, sq_nonneg z]
+  · have : 0 < z ^ 2 := by positivity
+    nlinarith [sq_nonneg x, sq_nonneg y]
+
+theorem C02_witness_not_posdef : ¬ PosDef3 1 (9/10) 1 (-9/10) (9/10) 1 := by
+  intro h
+  have := h 1 (-1) 1 (Or.inl one_ne_zero)
+  norm_num [qf3] at this
 
 end QExPy
